@@ -207,6 +207,10 @@ def check_tlwe_op(chk, v, name, spec):
     var = [p for p in stores if p["lv"] == P(res, "current_variance")]
     key = "%s applies '%s' to every coefficient of all k+1 components" % (name, op)
     problems = []
+    if pint is not None and any(sym.contains(g_, pint) for p_ in coef for g_ in p_["guards"]):
+        # alternatives selected by the value of the integer multiplier (shortcuts for 0 and +-1): the statements of different
+        # alternatives are not one update; deciding each alternative for its own multipliers is not implemented
+        chk.broken("%s: the statements are selected by tests on the multiplier %s (special cases for some values): not decided" % (name, sym.show(pint)))
     K = P(par, "k")
     # every statement applies the operator to the coefficient it writes, from the same (component, position) of the sample
     # (symbolic, per statement); together the statements visit every (component <= k, position < N) exactly once -- the loop
@@ -452,6 +456,11 @@ def check_extraction(chk, v, rule="R5"):
         q["loops"] = [jl]
         pieces2.append(q)
     okmsg = ""
+    opq_ = summ.opaque_writers(v, ps)
+    if opq_:
+        # part of the mask may be written by something the statement view does not show (an algorithm over iterators, ...):
+        # the interpretation decides, or says it cannot
+        shape.append("memory may be written by %s" % summ.show_opaque(opq_))
     if not problems and not shape:
         ok, detail, infos = pam.check_map(pieces2, ("sym", "$out"), ("sym", "$in"), N, -1, IDX, facts, want_op="=")
         if ok is None:
